@@ -67,7 +67,45 @@ func (r *Run) guarded(key, rule string, fn *ssa.Function, site ssa.Instruction, 
 	base := &Search{Fn: fn, Assume: assume}
 	wit := guardWitness(fn, site, a, base)
 	r.Visited += base.Visited
+	if wit != nil && assume == nil && r.helperGuarded(fn, a, 0) {
+		// the site sits in a private helper (extracted statements): the fact is established at every call site instead
+		wit, okDetail = nil, okDetail+" - established at every call site of the private helper "+r.W.FnName(fn)
+	}
 	return r.obW(key, rule, fn, site, wit, okDetail)
+}
+
+// helperGuarded: fn is a private helper (named, unexported, never used as a value, not reachable through a module
+// interface) and every one of its call sites is reached only over an edge establishing the fact - directly or, one level
+// up, because the caller is such a helper itself.
+func (r *Run) helperGuarded(fn *ssa.Function, a Atom, depth int) bool {
+	w := r.W
+	if depth > 1 || fn.Parent() != nil || token.IsExported(fn.Name()) {
+		return false
+	}
+	ci := w.callerIndex()[fn]
+	if ci == nil || ci.asValue || len(ci.callers) == 0 || w.ifaceMethods[fn.Name()] {
+		return false
+	}
+	for caller := range ci.callers {
+		if caller == fn {
+			return false
+		}
+		for _, site := range findIns(caller, func(i ssa.Instruction) bool { cc := callCommon(i); return cc != nil && cc.StaticCallee() == fn }) {
+			if _, isGo := site.(*ssa.Go); isGo {
+				return false // another goroutine: what the caller established does not carry over
+			}
+			if _, isDefer := site.(*ssa.Defer); isDefer {
+				return false
+			}
+			base := &Search{Fn: caller}
+			wit := guardWitness(caller, site, a, base)
+			r.Visited += base.Visited
+			if wit != nil && !r.helperGuarded(caller, a, depth+1) {
+				return false
+			}
+		}
+	}
+	return true
 }
 
 func cutOn(a Atom) func(*ssa.If, ssa.Value, bool) bool {
